@@ -7,9 +7,12 @@ H(name, props, tier, timeout_s, optional, bound)
 
 
 class H:
-    def __init__(self, name, props, tier="quick", timeout=150, optional=False, bound="", tprops=None, module=None, src=None):
+    def __init__(self, name, props, tier="quick", timeout=150, optional=False, bound="", tprops=None, module=None, src=None, expect_only=None):
         self.name, self.props, self.tier, self.timeout, self.optional, self.bound = name, props, tier, timeout, optional, bound
         self.tprops = tprops or []  # properties that include this harness in the thorough tier only
+        # expect_only: the harness is MEANT to end in a failed check of exactly this class (e.g. the bounds-check panic of an access
+        # beyond the stack); any other failed check (e.g. an arithmetic overflow on the way) is the violation, no failure at all is vacuous
+        self.expect_only = expect_only
         self.module, self.src = module, src  # override of the group's harness module / source file (harness lives in another file of the same overlay)
 
 
@@ -112,6 +115,8 @@ GROUPS["vm"] = {
         H("k_get_global", ["C02", "C05", "C09", "C17"], bound=CW + "0-2 globals, ANY 16-bit index", tprops=["C01", "C10"]),
         # k_local_slot_wide (70 000-slot stack, slot arithmetic beyond 65 535) is kept in vm_proofs.rs but not registered:
         # CBMC aborts (status 6) on the 560 KB stack object; the 16-bit limits are outside the claim (DESIGN.md 4.3-6)
+        H("k_local_slot_beyond_stack", ["C12", "C02"], bound="2-slot stack, ANY 16-bit bp and index with bp + idx >= 2 (sums beyond 65 535 included): the access must end in the "
+          "bounds-check panic and in nothing else - no arithmetic overflow on the way, i.e. the slot is not computed in 16 bits", expect_only=r"index out of bounds", tprops=["C01"]),
         H("k_get_local", ["C02", "C09", "C12"], bound=CW + "4 slots, any bp+idx < 4", tprops=["C01", "C05", "C10"]),
         H("k_set_local", ["C02", "C09", "C12"], bound=CW + "4 slots, any bp+idx < 3", tprops=["C01", "C05", "C10"]),
         H("k_jump", ["C02", "C11"], bound=CW + "any 16-bit target", tprops=["C01", "C05"]),
